@@ -23,6 +23,7 @@ type C07Params struct {
 	CloseRace  bool     `json:"close_race"`
 	Cleartext  int      `json:"cleartext"` // forged unprotected application_data records injected (both directions)
 	MarkerSeed uint64   `json:"marker_seed"`
+	MTU        int      `json:"mtu,omitempty"` // 0 = default; tiny values fragment even the Finished message
 }
 
 func c07Counts(tier string) (int, int) {
@@ -42,6 +43,9 @@ func c07Gen(r *rand.Rand, tier string, idx int) any {
 	p.EarlyWrite = r.IntN(2) == 0
 	p.CloseRace = r.IntN(3) == 0
 	p.Cleartext = []int{0, 2, 6}[r.IntN(3)]
+	if c, _ := dataCfgByName(p.Cfg); c.C.MaxVer == 12 && r.IntN(5) == 0 {
+		p.MTU = []int{8, 9, 11, 12, 13, 24, 48, 100}[r.IntN(8)]
+	}
 	if r.IntN(3) != 0 {
 		p.Rules = NetRules{DropPm: 50 + r.IntN(300), DupPm: r.IntN(100), HoldPm: r.IntN(100), FaultsUntilIdx: 3 + r.IntN(14),
 			HoldMaxNs: int64(time.Millisecond) * int64(10+r.IntN(2500))}
@@ -95,6 +99,9 @@ func c07Run(rc *RunCtx, params any) {
 		cfg.C.PSK, cfg.S.PSK = string(psk), string(psk)
 		secrets = append(secrets, psk)
 	}
+	if p.MTU > 0 {
+		cfg.C.MTU, cfg.S.MTU = p.MTU, p.MTU
+	}
 	n := NewSimNet(s, p.Rules)
 	pair, err := NewPair(s, n, cfg.C, cfg.S, nil)
 	if err != nil {
@@ -145,7 +152,11 @@ func c07Run(rc *RunCtx, params any) {
 		m := marker(p.MarkerSeed, "forged", i)
 		clearMarks[string(m)] = true
 		s.After(time.Duration(d.A)+time.Duration(i)*time.Microsecond+53*time.Nanosecond, func() {
+			// half far ahead of anything genuine, half inside the replay window of a running handshake
 			seq := uint64(0x200000 + d.C)
+			if d.C%2 == 0 {
+				seq = uint64(d.C>>1) % 64
+			}
 			rec := []byte{CTAppData, 0xfe, 0xfd, 0, 0, byte(seq >> 40), byte(seq >> 32), byte(seq >> 24), byte(seq >> 16), byte(seq >> 8), byte(seq), 0, byte(len(m))}
 			rec = append(rec, m...)
 			s.Fault("cleartext-appdata-injected")
@@ -232,6 +243,16 @@ func c07Run(rc *RunCtx, params any) {
 				rc.Violate("appdata-epoch0", "%s emitted an application_data record with epoch 0", em.Ep)
 
 				return
+			}
+			if r.Epoch != 0 && r.Type == CTHandshake && len(r.Body) >= 12 && len(r.Body) <= 24 && r.Body[0] == HTFinished {
+				// a record of a protected epoch whose body is, byte for byte, a well-formed cleartext
+				// fragment of a 12-byte Finished message (an encrypted body matches with probability 2^-60)
+				ln, off, fl := int(be(r.Body[1:4])), int(be(r.Body[6:9])), int(be(r.Body[9:12]))
+				if ln == 12 && off+fl <= 12 && len(r.Body) == 12+fl {
+					rc.Violate("finished-in-clear", "%s emitted a record with epoch %d whose body is an unencrypted Finished fragment (offset %d, %d bytes)", em.Ep, r.Epoch, off, fl)
+
+					return
+				}
 			}
 			if r.Epoch != 0 {
 				if is13 && (r.Type == CTHandshake || r.Type == CTAppData) {
